@@ -29,7 +29,7 @@ import (
 	"verif/harness/pki"
 )
 
-func init() { Registry["C20"] = C20; Registry["C20race"] = C20race }
+func init() { Registry["C20"] = C20; Registry["C20race"] = C20race; Registry["C20cold"] = C20cold }
 
 // goid: the id of the calling goroutine (the library calls the transceiver / the certificate pool on the
 // goroutine of the caller of ReadDocument / Verify, which is how an exchange is attributed to a call).
@@ -989,9 +989,38 @@ func c20RaceRun(c *core.Ctx) {
 	if out, err := cmd.CombinedOutput(); err != nil {
 		core.Infra("C20: building the race-detector driver failed: %v\n%s", err, out)
 	}
-	logBase := filepath.Join(c.Work, "race")
-	run := exec.Command(bin, "C20race", c.Tier)
-	run.Env = append(os.Environ(), "GORACE=halt_on_error=0 log_path="+logBase, "VERIF_EVIDENCE_DIR="+filepath.Join(c.Work, "race-evidence"), fmt.Sprintf("VERIF_SEED=%d", c.Seed))
+	c20RaceExec(c, bin, "C20race", "contended", nil)
+	// cold starts: a fresh process whose FIRST use of the library is already parallel (lazily built tables are
+	// initialised under contention only then); inputs are prepared here, in the warm parent
+	dir := filepath.Join(c.Work, "cold")
+	_ = os.MkdirAll(dir, 0o755)
+	v := randomVariety(rand.New(rand.NewSource(c.Seed)))
+	v.Transport = chipsim.Transport{ExtendedLength: true, AllowOversizeShortResponse: true, LengthErrorKeepsSession: true}
+	v.MaxLe, v.AaBits, v.DG13Size = 256, 1024, 0
+	p, err := personalise(sessCfg{"bac", []int{2}, "rsa", false, true, "genuine"}, v)
+	if err != nil {
+		core.Infra("personalise: %v", err)
+	}
+	o1 := runSession(p, sessOpt{false, false, "mrz"}, 256, nil, challengeBytes(1), v.Seed)
+	if o1.err != "" || o1.docEx == nil {
+		core.Infra("C20: reference read failed: %s", o1.err)
+	}
+	blob, _ := o1.docEx.ToCbor()
+	_ = os.WriteFile(filepath.Join(dir, "blob.cbor"), blob, 0o644)
+	for i, t := range p.Trust {
+		_ = os.WriteFile(filepath.Join(dir, fmt.Sprintf("trust-%d.der", i)), t, 0o644)
+	}
+	for k := 0; k < core.Pick(c, 3, 10); k++ {
+		mode := []string{"verify", "read", "verify-mobile"}[k%3]
+		c20RaceExec(c, bin, "C20cold", fmt.Sprintf("cold-start/%s/%d", mode, k), []string{"VERIF_C20_COLD=" + dir, "VERIF_C20_COLD_MODE=" + mode, fmt.Sprintf("VERIF_C20_COLD_RUN=%d", k)})
+	}
+}
+
+// c20RaceExec runs one entry of the race-detector build and turns reports / differing results into violations.
+func c20RaceExec(c *core.Ctx, bin, entry, label string, env []string) {
+	logBase := filepath.Join(c.Work, "race-"+strings.ReplaceAll(label, "/", "-"))
+	run := exec.Command(bin, entry, c.Tier)
+	run.Env = append(append(os.Environ(), "GORACE=halt_on_error=0 log_path="+logBase, "VERIF_EVIDENCE_DIR="+filepath.Join(c.Work, "race-evidence"), fmt.Sprintf("VERIF_SEED=%d", c.Seed)), env...)
 	out, err := run.CombinedOutput()
 	reports, _ := filepath.Glob(logBase + ".*")
 	n := 0
@@ -1006,22 +1035,113 @@ func c20RaceRun(c *core.Ctx) {
 			}
 		}
 	}
-	c.Case("race-detector/contended", true)
-	c.Extra["race_reports"] = n
+	c.Case("race-detector/"+label, true)
+	if prev, ok := c.Extra["race_reports"].(int); ok {
+		c.Extra["race_reports"] = prev + n
+	} else {
+		c.Extra["race_reports"] = n
+	}
+	kind := strings.SplitN(label, "/", 2)[0]
 	if n > 0 {
-		c.Violation("C20:data-race", fmt.Sprintf("the race detector reported %d data race(s) in contended use of shared readers / verifiers / trust store", n), map[string]any{"report": first})
+		c.Violation("C20:data-race", fmt.Sprintf("the race detector reported %d data race(s) in %s use of shared readers / verifiers / trust store", n, kind), map[string]any{"report": first, "run": label})
 	}
 	if strings.Contains(string(out), "fatal error: concurrent map") || strings.Contains(string(out), "WARNING: DATA RACE") {
-		// the Go runtime itself stopped the contended workload (unsynchronised map access), or the report went to stderr
-		c.Violation("C20:data-race", "the contended workload was stopped by the runtime / reported a data race: "+firstMatchLine(string(out), "fatal error", "DATA RACE"), map[string]any{"output": tailStr(string(out), 3000)})
+		// the Go runtime itself stopped the workload (unsynchronised map access), or the report went to stderr
+		c.Violation("C20:data-race", "the "+kind+" workload was stopped by the runtime / reported a data race: "+firstMatchLine(string(out), "fatal error", "DATA RACE"), map[string]any{"output": tailStr(string(out), 3000), "run": label})
 	} else if err != nil {
 		if ee, ok := err.(*exec.ExitError); ok && ee.ExitCode() == 1 {
-			// the contended workload itself found results that differ from the sequential ones
-			c.Violation("C20:contended-results", "contended run: a concurrent call returned another result than the same call alone", map[string]any{"output": tailStr(string(out), 2000)})
+			// the workload itself found results that differ from the sequential ones
+			c.Violation("C20:contended-results", kind+" run: a concurrent call returned another result than the same call alone", map[string]any{"output": tailStr(string(out), 2000), "run": label})
 		} else if n == 0 {
-			core.Infra("C20: race-detector run failed: %v\n%s", err, tailStr(string(out), 2000))
+			core.Infra("C20: race-detector run %s failed: %v\n%s", label, err, tailStr(string(out), 2000))
 		}
 	}
+}
+
+// C20cold (run inside the -race build, fresh process): the first library calls of the process are made from many
+// goroutines at once - independent verifiers sharing one trust store / independent readers / the mobile verifiers.
+func C20cold(c *core.Ctx) {
+	c.Rule = "cold-start workload under the race detector"
+	dir, mode := os.Getenv("VERIF_C20_COLD"), os.Getenv("VERIF_C20_COLD_MODE")
+	var mu sync.Mutex
+	fail := func(key, msg string) {
+		mu.Lock()
+		c.Violation(key, msg, nil)
+		mu.Unlock()
+	}
+	start := make(chan struct{})
+	var wg sync.WaitGroup
+	switch mode {
+	case "verify", "verify-mobile":
+		blob, err := os.ReadFile(filepath.Join(dir, "blob.cbor"))
+		if err != nil {
+			core.Infra("C20cold: %v", err)
+		}
+		pool := &cms.GenericCertPool{}
+		if mode == "verify" {
+			files, _ := filepath.Glob(filepath.Join(dir, "trust-*.der"))
+			for _, f := range files {
+				b, _ := os.ReadFile(f)
+				_ = pool.Add(b)
+			}
+		}
+		for g := 0; g < 16; g++ {
+			wg.Add(1)
+			go func(g int) {
+				defer wg.Done()
+				<-start
+				if mode == "verify-mobile" {
+					// the built-in trust store does not hold the test issuer: the call has to complete, that is all
+					if _, err := mobile.NewVerifier().Verify(blob); err != nil {
+						fail("C20:contended-results", fmt.Sprintf("cold start: mobile verifier failed: %v", err))
+					}
+					return
+				}
+				de, err := verifier.NewVerifier(pool).Verify(blob)
+				if err != nil || de == nil || de.Session.PassiveAuthResult == nil || !de.Session.PassiveAuthResult.Success {
+					var pe error
+					if de != nil {
+						pe = de.Session.PassiveAuthErr
+					}
+					fail("C20:contended-results", fmt.Sprintf("cold start: independent verifier %d over the shared trust store did not reproduce the lone result (success): %v %v", g, err, pe))
+				}
+			}(g)
+		}
+	case "read":
+		type job struct {
+			p *perso.Passport
+			v sessVariety
+		}
+		var jobs []job
+		rnd := rand.New(rand.NewSource(c.Seed + 77))
+		for g := 0; g < 6; g++ {
+			v := randomVariety(rnd)
+			v.Transport = chipsim.Transport{ExtendedLength: true, AllowOversizeShortResponse: true, LengthErrorKeepsSession: true}
+			v.MaxLe, v.AaBits, v.DG13Size = 256, 1024, 0
+			cfg := []sessCfg{{"bac", []int{2}, "rsa", false, true, "genuine"}, {"pace", []int{}, "none", true, true, "genuine"}, {"cam+bac", []int{11}, "none", true, true, "genuine"}}[g%3]
+			p, err := personalise(cfg, v)
+			if err != nil {
+				core.Infra("personalise: %v", err)
+			}
+			jobs = append(jobs, job{p, v})
+		}
+		for g, j := range jobs {
+			wg.Add(1)
+			go func(g int, j job) {
+				defer wg.Done()
+				<-start
+				o := runSession(j.p, sessOpt{false, false, "mrz"}, 256, nil, nil, j.v.Seed)
+				if o.err != "" || o.docEx == nil || o.docEx.Session.PassiveAuthResult == nil || !o.docEx.Session.PassiveAuthResult.Success {
+					fail("C20:contended-results", fmt.Sprintf("cold start: independent reader %d did not reproduce the lone result: %s", g, o.err))
+				}
+			}(g, j)
+		}
+	default:
+		core.Infra("C20cold: unknown mode %q", mode)
+	}
+	close(start)
+	wg.Wait()
+	c.Case("cold/"+mode, true)
 }
 
 func firstMatchLine(s string, subs ...string) string {
